@@ -256,12 +256,14 @@ fn instance(tx: mpsc::Sender<Value>, seed: u64, flavor: String, exec: String, ti
         snap(&api, now, false, now, &accepted, &cleared, &mut cbs, lookups, what);
     }
     let _ = tx.send(json!({"ev":"Op","completed":true,"begin":true,"what":"close/drop"}));
+    // close(): the workers must terminate although handles are still alive; drop: once the last handle is gone
+    let mut keep: Option<Api> = None;
     let ev = if drop_only {
         drop(api);
         "Dropped"
     } else {
         api.close();
-        drop(api);
+        keep = Some(api);
         "Closed"
     };
     // the workers terminate: threads of the sync cache, tasks of the async cache
@@ -278,6 +280,7 @@ fn instance(tx: mpsc::Sender<Value>, seed: u64, flavor: String, exec: String, ti
         }
         std::thread::sleep(Duration::from_millis(5));
     }
+    drop(keep);
     let _ = tx.send(json!({"ev":ev,"workers_left":left}));
     let _ = tx.send(json!({"ev":"__done"}));
 }
